@@ -46,6 +46,11 @@ class ShieldAwait:
         self.inner = inner
 
 
+class GatherAwait:
+    def __init__(self, aws, kwargs):
+        self.aws, self.kwargs = list(aws), dict(kwargs)
+
+
 class TaskAwait:
     """asyncio.Task wrapping a coroutine of the repo (create_task / create_eager_task)."""
 
@@ -91,6 +96,23 @@ class AwaitCtl:
                 self.cancellable = prev
         if isinstance(aw, TaskAwait):
             return self.handle(I, aw.coro, node)
+        if isinstance(aw, GatherAwait):
+            # asyncio.gather: the awaitables run CONCURRENTLY.  The engine follows one legal schedule (one after the
+            # other, in order) and records that they were concurrent: ("asyncio.gather", None, (n,), kwargs) -- a
+            # contract whose proof rests on the operations being sequential must exclude this record
+            ctx.emit("asyncio.gather", None, (len(aw.aws),), dict(aw.kwargs))
+            results = []
+            for a in aw.aws:
+                try:
+                    results.append(self.handle(I, a, node))
+                except PyRaise as pr:
+                    from .interp import exc_class
+
+                    if aw.kwargs.get("return_exceptions") and issubclass(exc_class(pr.exc), Exception):
+                        results.append(pr.exc)
+                        continue
+                    raise
+            return results
         if isinstance(aw, WaitForAwait):
             from .withs import TimeoutCM, _guarded
 
